@@ -187,6 +187,7 @@ impl rustc_driver::Callbacks for Cb {
         let cx = Ctx { tcx };
         let mut index_bodies = vec![];
         let mut calls = vec![];
+        let mut casts = vec![];
         let mut mir_out = String::new();
         let mut hir_out = String::new();
         let owners: Vec<LocalDefId> = tcx.hir_body_owners().collect();
@@ -225,7 +226,8 @@ impl rustc_driver::Callbacks for Cb {
                 && tcx.is_mir_available(did);
             if has_mir {
                 let body = tcx.optimized_mir(did);
-                let (mj, mut cs) = mirdump::dump_body(&cx, def, body);
+                let (mj, mut cs, mut ks) = mirdump::dump_body(&cx, def, body);
+                casts.append(&mut ks);
                 let line = J::Obj(vec![("def", J::s(path.clone())), ("mir", mj)]);
                 line.write(&mut mir_out);
                 mir_out.push('\n');
@@ -324,6 +326,7 @@ impl rustc_driver::Callbacks for Cb {
             ("is_test", J::Bool(is_test)),
             ("bodies", J::Arr(index_bodies)),
             ("calls", J::Arr(calls)),
+            ("casts", J::Arr(casts)),
             ("adts", J::Arr(adts)),
             ("statics", J::Arr(statics)),
             ("impls", J::Arr(impls)),
